@@ -155,5 +155,16 @@ func runC10(r *Runner, tier string, rng *Rng) {
 		}
 	}
 	flush()
-	r.St.Rule = "generated supply chains (steps mixing key- and certificate-authorized links, keys whose hash algorithm lists are written in another order, layouts whose rules carry substitution markers so that the verdict depends on the parameters) verified 2-4 times on the SAME in-memory layout and key objects with equal or different parameter dictionaries, with and without the caller's intermediate certificates; the product directory is reset before every call; every history is run 4x (12x thorough) and runs must agree among themselves and with the model (a pure function of its inputs); the caller's layout, keys and signatures are serialised before and after every call. Class = (history length, scenario features, verdict vector)."
+	// artifact maps whose names clean to one and the same name (finding F20): VerifyArtifacts on the
+	// same links 13 times, every time on freshly built maps - one verdict, the model's
+	ncoll := tierN(tier, 150, 3000)
+	for i := 0; i < ncoll; i++ {
+		r.St.Count("collide")
+		batch = append(batch, genCollideCase(rng))
+		if len(batch) >= 50 {
+			flush()
+		}
+	}
+	flush()
+	r.St.Rule = "generated supply chains (steps mixing key- and certificate-authorized links, keys whose hash algorithm lists are written in another order, layouts whose rules carry substitution markers so that the verdict depends on the parameters) verified 2-4 times on the SAME in-memory layout and key objects with equal or different parameter dictionaries, with and without the caller's intermediate certificates; the product directory is reset before every call; every history is run 4x (12x thorough) and runs must agree among themselves and with the model (a pure function of its inputs); the caller's layout, keys and signatures are serialised before and after every call. Plus artifact maps with several names that path.Clean maps to one name, verified 13x on fresh maps (no verdict may vary). Class = (history length, scenario features, verdict vector)."
 }
